@@ -74,3 +74,74 @@ Lemma q_run_drain_is_receive : forall q m lost r,
     | _ => (q, m, lost)
     end.
 Proof. intros q m lost r. rewrite gen_receive_client_stats_model. reflexivity. Qed.
+
+(* ------------------------------------------------------------------ the reporter thread's loop *)
+Section ReporterLoop.
+  Variables (pushed : nat -> list cmap) (flag due : nat -> bool).
+
+  Definition after_pushes (q : squeue) (i : nat) : squeue :=
+    fold_left (fun q0 x => fst (sq_force_push q0 x)) (pushed i) q.
+
+  (* pass i: (the workers' pushes since the last pass are on the queue;) keep_running is read; everything
+     queued is merged; when the report is due the merged map is handed to report() and cleared; one second
+     of sleep *)
+  Fixpoint reporter (fuel : nat) (q : squeue) (m : cmap) (i : nat) (reps : list cmap)
+    : res (squeue * cmap * nat * list cmap) :=
+    match fuel with
+    | O => Panic site_fuel
+    | S f =>
+        if flag i then
+          let q1 := after_pushes q i in
+          let m1 := rep_receive m (sq_items q1) in
+          if due i then reporter f (mksq (sq_cap q1) []) [] (S i) (reps ++ [m1])
+          else reporter f (mksq (sq_cap q1) []) m1 (S i) reps
+        else Ok (q, m, i, reps)
+    end.
+
+  Theorem gen_reporter_loop_model : forall fuel q m i reps,
+    gen_reporter_loop pushed flag due fuel q m tt i reps = reporter fuel q m i reps.
+  Proof.
+    intros fuel q m i reps. unfold gen_reporter_loop.
+    assert (H : forall fuel q m reps i,
+      obind (while_fuel fuel
+               (fun '(_, _, _, i0) => Ok (flag i0))
+               (fun '(q0, m0, r0, i0) =>
+                  obind (gen_receive_client_stats (fold_left (fun q_p x_p => fst (sq_force_push q_p x_p)) (pushed i0) q0) m0)
+                    (fun '(q5, m6) =>
+                       obind (if due i0 then Ok (r0 ++ [m6], []) else Ok (r0, m6))
+                         (fun '(r10, m11) => Ok (q5, m11, r10, S i0))))
+               (q, m, reps, i))
+            (fun '(q13, m14, r15, i16) => Ok (q13, m14, i16, r15))
+      = reporter fuel q m i reps).
+    { clear. induction fuel as [|f IH]; intros q m reps i; cbn [while_fuel reporter obind]; [reflexivity|].
+      destruct (flag i); cbn [obind]; [|reflexivity].
+      rewrite gen_receive_client_stats_model. cbn [obind]. fold (after_pushes q i).
+      destruct (due i); cbn [obind]; apply IH. }
+    apply H.
+  Qed.
+
+  (* keep_running is read at the top of every pass: cleared before pass i + n (and not before), the loop
+     makes exactly n passes — each of which ends with the one-second sleep — and returns *)
+  Theorem reporter_stops_at_flag : forall n fuel q m i reps,
+    (n < fuel)%nat -> (forall j, (i <= j < i + n)%nat -> flag j = true) -> flag (i + n)%nat = false ->
+    exists q' m' reps', reporter fuel q m i reps = Ok (q', m', (i + n)%nat, reps').
+  Proof.
+    induction n as [|n IH]; intros fuel q m i reps Hf Hon Hoff; (destruct fuel as [|f]; [lia|]); cbn [reporter].
+    - rewrite Nat.add_0_r in Hoff. rewrite Hoff. rewrite Nat.add_0_r. eauto.
+    - rewrite (Hon i) by lia.
+      assert (H2 : forall j, (S i <= j < S i + n)%nat -> flag j = true) by (intros j Hj; apply Hon; lia).
+      assert (H3 : flag (S i + n)%nat = false) by (replace (S i + n)%nat with (i + S n)%nat by lia; exact Hoff).
+      replace (i + S n)%nat with (S i + n)%nat by lia.
+      destruct (due i); apply IH; try assumption; lia.
+  Qed.
+
+  (* the merged map is handed to report() and cleared in the same pass, and only then: a pass that does not
+     report keeps everything merged so far *)
+  Lemma reporter_pass : forall f q m i reps, flag i = true ->
+    reporter (S f) q m i reps
+    = let q1 := after_pushes q i in
+      let m1 := rep_receive m (sq_items q1) in
+      if due i then reporter f (mksq (sq_cap q1) []) [] (S i) (reps ++ [m1])
+      else reporter f (mksq (sq_cap q1) []) m1 (S i) reps.
+  Proof. intros f q m i reps Hfl. cbn [reporter]. rewrite Hfl. reflexivity. Qed.
+End ReporterLoop.
